@@ -100,7 +100,7 @@ HOSTS = ["example.com", "EXAMPLE.com", "Ex.Ample.COM", "[::1]", "127.0.0.1", "h"
 PORTS = [None, None, "80", "443", "8080", "8", "0080"]
 PATHS = ["", "/", "/r%20v/X", "/a b", "/p", "/P/Q", "/~a;b=c", "/a;x/b;y=1"]
 UIS = [None, None, None, "user", "User:Pw", "u:p%40x"]
-SECRETS = ["cs", "kd94hf93k423kf44", "a&b", "s p", "caf\xe9", "", "%"]
+SECRETS = ["cs", "kd94hf93k423kf44", "a&b", "s p", "caf\xe9", "", "%", "ab/cd+ef==", "/", "~a/b~", "a:b@c?d#e"]
 
 
 def mk(rng=None, **kw):
